@@ -75,6 +75,7 @@ PROPS = {
         bounds='every REACH-shaped state with chain <= 7 (8), arbitrary 128-bit p, known and unknown clients; AddVersion half = the real add_version on the same state',
     ),
     'C09': dict(
+        H=['c16'],
         I=['c09.imem'],
         K=dict(quick=['c09_nonint_n3'], thorough=['c09_nonint_n4']),
         S=dict(quick=['s_reads_byid', 's_reads_byparent'], thorough=['s_reads_client', 's_reads_snapdata', 's_reads_byparent', 's_reads_byid', 's_writes_newclient', 's_writes_snapshot', 's_writes_addversion']),
@@ -115,6 +116,7 @@ PROPS = {
         bounds='as C14; allow-list membership is an uninterpreted predicate (any list, any id)',
     ),
     'C18': dict(
+        H=['c15'],
         I=['c18.imem'],
         K=dict(quick=['c18_frame_n7_k0', 'c18_frame_n7_k1', 'c18_frame_n7_k2', 'c18_frame_n7_k3'], thorough=['c18_frame_n8_k0', 'c18_frame_n8_k1', 'c18_frame_n8_k2', 'c18_frame_n8_k3']),
         S=dict(quick=[], thorough=['s_reads_client', 's_reads_snapdata', 's_reads_byparent', 's_reads_byid']),
